@@ -195,13 +195,14 @@ def _ops():
     ops.append(("scale_parameter", {"name": "zz", "factor": 2.0}))
     ops.append(("scale_parameters", {"parameters": {"k": 2.0, "p": 0.5}}))
     ops.append(("make_parameter_dynamic", {"name": "p"}))
-    ops.append(("make_parameter_dynamic", {"name": "p", "initial_value": 1.0, "stoich": {"v1": 1.0}}))
+    ops.append(("make_parameter_dynamic", {"name": "p", "initial_value": 1.75, "stoich": {"v1": 0.5, "v2": 0.25}}))
     ops.append(("make_parameter_dynamic", {"name": "p", "stoich": {"sa": 1.0}}))
     ops.append(("make_parameter_dynamic", {"name": "p", "stoich": {"nope": 1.0}}))
     ops.append(("make_parameter_dynamic", {"name": "zz"}))
     ops.append(("make_variable_static", {"name": "y"}))
     ops.append(("make_variable_static", {"name": "y", "value": 4.0}))
     ops.append(("make_variable_static", {"name": "zz"}))
+    ops.append(("make_variable_static", {"name": "w"}))  # a variable whose start value is an initial assignment (base 0)
     # plural forms
     ops.append(("add_parameters", {"parameters": {"n1": 1.0, "n3": 2.0}}))
     ops.append(("add_variables", {"variables": {"n1": 1.0, "n3": 2.0}}))
@@ -657,6 +658,20 @@ def check(case):
     if not changed <= allowed:
         return bad("edit-leaked", "edit-changed-other-reactions", f"reactions {sorted(changed - allowed)} changed although the operation names {sorted(allowed)}: "
                    f"{[(rb.get(n), ra.get(n)) for n in sorted(changed - allowed)][:2]}")
+    # 2d. a conversion keeps the value: the new variable starts at the given value or at the parameter's value, the
+    #     new parameter holds the given value or what the variable started from (also an initial assignment)
+    if raised is None and opname == "make_parameter_dynamic":
+        old = dict((n_, v_) for n_, v_ in before["parameters"]).get(a_["name"])
+        new_v = dict((n_, v_) for n_, v_ in after["variables"]).get(a_["name"])
+        want = a_.get("initial_value", old) if a_.get("initial_value") is not None else old
+        if not _ceq(new_v, want):
+            return bad("conversion-changed-value", "conversion-changed-value", f"variable {a_['name']} starts at {new_v}, expected {want}")
+    if raised is None and opname == "make_variable_static":
+        old = dict((n_, v_) for n_, v_ in before["variables"]).get(a_["name"])
+        new_p = dict((n_, v_) for n_, v_ in after["parameters"]).get(a_["name"])
+        want = a_.get("value", old) if a_.get("value") is not None else old
+        if not _ceq(new_p, want):
+            return bad("conversion-changed-value", "conversion-changed-value", f"parameter {a_['name']} is {new_p}, expected {want} (it was the variable's start value {old})")
     # 3a. acceptance
     if expect == "reject" and raised is None:
         return bad("bad-edit-accepted", "name-clash-accepted", "edit must be rejected (name in use / time / unknown target) but was accepted")
